@@ -120,6 +120,74 @@ def external_stores(prog, attr, owner_quals):
     return out
 
 
+def flush_drains(prog, fl):
+    """(ok, why) - `_flush` leaves the receive queue EMPTY: it takes packets in a loop whose only ways out are 'the queue says it is empty'
+    (QueueEmpty from get_nowait, or the emptiness test of the loop).  Taking a bounded number of packets is not a flush: two late replies of
+    abandoned handshakes leave one behind, and it is taken for the reply to the next handshake."""
+    par = {c: p for p in ast.walk(fl.node) for c in ast.iter_child_nodes(p)}
+    recv = fl.params[0] if fl.params else "self"
+
+    aliases = {t_.id for a_ in ast.walk(fl.node) if isinstance(a_, ast.Assign) and isinstance(a_.value, ast.Attribute) and isinstance(a_.value.value, ast.Name)
+               and a_.value.value.id == recv for t_ in a_.targets if isinstance(t_, ast.Name)}          # q = self._queue
+
+    def is_get(n):
+        if not (isinstance(n, ast.Call) and isinstance(n.func, ast.Attribute) and n.func.attr in ("get_nowait", "get")):
+            return False
+        b_ = n.func.value
+        return (isinstance(b_, ast.Attribute) and isinstance(b_.value, ast.Name) and b_.value.id == recv) or (isinstance(b_, ast.Name) and b_.id in aliases)
+
+    def empty_test(t, want_nonempty=True):
+        if isinstance(t, ast.UnaryOp) and isinstance(t.op, ast.Not):
+            return empty_test(t.operand, not want_nonempty)
+        if isinstance(t, ast.Call) and isinstance(t.func, ast.Attribute) and t.func.attr == "empty":
+            return not want_nonempty
+        if isinstance(t, ast.Call) and isinstance(t.func, ast.Attribute) and t.func.attr == "qsize":
+            return want_nonempty
+        if isinstance(t, ast.Compare) and len(t.ops) == 1 and isinstance(t.left, ast.Call) and isinstance(t.left.func, ast.Attribute) and t.left.func.attr == "qsize" \
+                and isinstance(t.comparators[0], ast.Constant) and t.comparators[0].value == 0:
+            return isinstance(t.ops[0], (ast.Gt, ast.NotEq)) == want_nonempty
+        return False
+
+    def catches_empty(h):
+        names = [norm(x) for x in (h.type.elts if isinstance(h.type, ast.Tuple) else [h.type])] if h.type is not None else ["BaseException"]
+        return any(n_.split(".")[-1] in ("QueueEmpty", "Exception", "BaseException") for n_ in names)
+    gets = [n for n in ast.walk(fl.node) if is_get(n)]
+    if not gets:
+        # (a flush that swaps in a fresh queue would be another design: not decided here)
+        raise AnalysisError(f"{fl.qual}: no get / get_nowait on the receive queue - how it flushes is not recognised")
+    for g in gets:
+        x, loop = g, None
+        while x in par:
+            x = par[x]
+            if isinstance(x, (ast.While, ast.For, ast.AsyncFor)):
+                loop = x
+                break
+        if loop is None:
+            continue
+        breaks = [b for b in ast.walk(loop) if isinstance(b, (ast.Break, ast.Return)) and not any(isinstance(par.get(a), ast.ExceptHandler) and catches_empty(par[a])
+                                                                                                   for a in [b] + [y for y in _ancestors(par, b)])]
+        if breaks:
+            return False, f"the loop can stop at `{norm(breaks[0])}` while packets remain queued"
+        if isinstance(loop, ast.While) and isinstance(loop.test, ast.Constant) and loop.test.value is True:
+            # while True: out only through the exception of get_nowait
+            handlers = [h for a in _ancestors(par, loop) + _ancestors(par, g) if isinstance(a, ast.Try) for h in a.handlers]
+            if any(catches_empty(h) for h in handlers) and g.func.attr == "get_nowait":
+                return True, "loop until QueueEmpty"
+            return False, "an endless loop whose exit on an empty queue is not handled"
+        if isinstance(loop, ast.While) and empty_test(loop.test):
+            return True, "loop while the queue is not empty"
+        return False, f"the loop `{norm(loop.test) if isinstance(loop, ast.While) else norm(loop.iter)}` is bounded by something other than the queue being empty"
+    return False, "packets are taken from the queue without a loop: at most a fixed number is discarded"
+
+
+def _ancestors(par, n):
+    out = []
+    while n in par:
+        n = par[n]
+        out.append(n)
+    return out
+
+
 def flush_before_write(prog, pa) -> bool:
     """On *every* path to the handshake write the receive queue has been flushed (must-pass-through): otherwise a stale
     reply of an earlier, abandoned handshake is taken for the reply to this one and a wrong session key is derived."""
@@ -363,6 +431,13 @@ def run(ctx):
     order = flush_before_write(prog, pa)
     ctx.ob("C06.c", pa.qual, order, "stale packets are flushed before the handshake request is written", func=pa.qual, file=file, construct="_flush() before write()",
            fail="the receive queue is not flushed on every path before the handshake request: a stale reply is taken for this handshake's reply (wrong session key)")
+    fl = prog.lookup_method(pa.cls, "_flush") if pa.cls is not None else None
+    if fl is not None:
+        ctx.fn(fl.qual)
+        drained, why = flush_drains(prog, fl)
+        ctx.count("flush_loops")
+        ctx.ob("C06.c", fl.qual, drained, f"_flush empties the receive queue ({why})", func=fl.qual, file=fl.module.rel, construct="_flush",
+               fail=f"_flush does not empty the receive queue: {why} - a stale reply left behind is taken for the reply to this handshake (wrong session key)")
     lw = [n for n in ast.walk(la.node) if isinstance(n, ast.Call) and isinstance(n.func, ast.Attribute) and n.func.attr == "write"]
     ctx.ob("C06.c", la.qual, not lw, "LAN.authenticate performs no transport write of its own", func=la.qual, file=file, node=lw[0] if lw else None,
            fail="LAN.authenticate writes to the transport itself (something other than a handshake request is sent)")
@@ -420,8 +495,13 @@ def run(ctx):
     # ---- C06.t5 the reply that is proved is the reply that arrived: how a handshake response is framed, dispatched (only while one is
     # pending) and cut out of its packet - all of it, `packet[8:]`, so that the length test above sees over-long replies - is C05's
     # subject; its obligations are re-run here as premises
-    from . import c05
+    from . import c04, c05, c07
     ctx.import_rules(c05, "t5")
+    # ... it reaches the handshake through the V3 stream reassembly (a reply that is never queued surfaces as a timeout, not as an
+    # AuthenticationError) and is proved against the session of *this* connection (fresh protocol object per connection, session attributes
+    # written by nobody else): C04's and C07's obligations
+    ctx.import_rules(c04, "t4")
+    ctx.import_rules(c07, "t7")
     ctx.require_min("key_returns", 1)
     ctx.require_min("proofs", 1)
     ctx.require_min("state_stores", 4)
